@@ -403,3 +403,52 @@ func specEarlyMS(availS, nowS, atoS float64) int {
 //@   ensures  wrapDurOf(a, rep) == repDur(rep) && wrapDurOf(a, rep) >= 1 && wrapDurOf(a, rep) <= maxLoopTicks
 //@   ensures  forall i in [0, len(rep.Segments)) :: int(rep.Segments[i].EndTime) - int(rep.Segments[0].StartTime) <= wrapDurOf(a, rep)
 func lemmaWrapDurIsRepDur(a *asset, rep *RepData) {}
+
+// ---------------------------------------------------------------------------
+// C03: audio re-segmentation arithmetic
+
+const (
+	maxRefTime   = 380000000000000 // reference (video) media time: year 2100 at 90 kHz
+	maxAudioTs   = 48000           // audio timescale for which refTime*audioTimescale fits uint64
+	maxFrameDur  = 100000
+)
+
+// calcAudioTimeFromRef: the first audio frame boundary at or after refTime (compared as
+// rationals refTime/refTimescale and r/audioTimescale), hence less than one frame late.
+//@ func calcAudioTimeFromRef
+//@   nowrap
+//@   inline
+//@   requires refTime <= maxRefTime && 0 < refTimescale && refTimescale <= maxTimescale && 0 < audioFrameDur && audioFrameDur <= maxFrameDur && 0 < audioTimescale && audioTimescale <= maxAudioTs
+//@   ensures  boundary: result % audioFrameDur == 0
+//@   ensures  notEarly: result*refTimescale >= refTime*audioTimescale
+//@   ensures  lessThanOneFrameLate: result >= audioFrameDur ==> (result-audioFrameDur)*refTimescale < refTime*audioTimescale
+//@   ensures  zero: result < audioFrameDur ==> result == 0 && refTime == 0
+
+// calcAudioSegRecipe: the audio segment for a reference (video) segment [refStart, refEnd)
+// runs from the frame boundary at/after refStart to the one at/after refEnd; the recipe's
+// input intervals account for exactly that duration.
+//@ func calcAudioSegRecipe
+//@   nowrap
+//@   use      lemmaFrameCeilMono(refStart/refTotalDur*refTotalDur, refStart, refTimescale, uint64(*rd.ConstantSampleDuration), uint64(rd.MediaTimescale))
+//@   use      lemmaFrameCeilMono(refEnd/refTotalDur*refTotalDur, refEnd, refTimescale, uint64(*rd.ConstantSampleDuration), uint64(rd.MediaTimescale))
+//@   use      lemmaFrameCeilMono(refStart, refEnd/refTotalDur*refTotalDur, refTimescale, uint64(*rd.ConstantSampleDuration), uint64(rd.MediaTimescale))
+//@   use      lemmaFrameCeilMono(refStart, refEnd, refTimescale, uint64(*rd.ConstantSampleDuration), uint64(rd.MediaTimescale))
+//@   use      lemmaFrameCeilMono(refStart/refTotalDur*refTotalDur, refEnd/refTotalDur*refTotalDur, refTimescale, uint64(*rd.ConstantSampleDuration), uint64(rd.MediaTimescale))
+//@   requires rd != nil && rd.ConstantSampleDuration != nil && 0 < *rd.ConstantSampleDuration && *rd.ConstantSampleDuration <= maxFrameDur && 0 < rd.MediaTimescale && rd.MediaTimescale <= maxAudioTs
+//@   requires refStart <= refEnd && refEnd <= maxRefTime && 0 < refTimescale && refTimescale <= maxTimescale && 0 < refTotalDur
+//@   ensures  times: result.startTime == calcAudioTimeFromRef(refStart, refTimescale, uint64(*rd.ConstantSampleDuration), uint64(rd.MediaTimescale)) && result.endTime == calcAudioTimeFromRef(refEnd, refTimescale, uint64(*rd.ConstantSampleDuration), uint64(rd.MediaTimescale))
+//@   ensures  ident: result.rep == rd && result.segNr == refNr && result.startTime <= result.endTime
+//@   ensures  accounting: (result.audioInEnd - result.audioInStart) + result.audioInEndAfterWrap == result.endTime - result.startTime
+//@   ensures  ordered: result.audioInStart <= result.audioInEnd
+
+// lemmaFrameCeilMono: the frame boundary at/after a time is monotone in that time.
+//@ lemma lemmaFrameCeilMono
+//@   nowrap
+//@   requires t1 <= maxRefTime && t2 <= maxRefTime && 0 < refTimescale && refTimescale <= maxTimescale && 0 < fd && fd <= maxFrameDur && 0 < audioTimescale && audioTimescale <= maxAudioTs
+//@   ensures  t1 <= t2 ==> calcAudioTimeFromRef(t1, refTimescale, fd, audioTimescale) <= calcAudioTimeFromRef(t2, refTimescale, fd, audioTimescale)
+func lemmaFrameCeilMono(t1, t2, refTimescale, fd, audioTimescale uint64) {
+	a1 := calcAudioTimeFromRef(t1, refTimescale, fd, audioTimescale)
+	a2 := calcAudioTimeFromRef(t2, refTimescale, fd, audioTimescale)
+	assert(implies(t1 <= t2, a1 <= a2))
+}
+
